@@ -80,6 +80,7 @@ def check_parsed(rec, text):
 
 
 def run(rec, cfg):
+    rec.accept = {"print"}
     MR.CHECKS.update({"print"})
     MR.attach_apply()
     rng = cfg.rng("c04")
